@@ -61,6 +61,12 @@ func init() {
 		Rule: "units = 14 typed position kinds (string, integer, number, boolean, array of integer, object, 5 string formats, 3 non-string types carrying a string format) x nullable x 7 contexts (required/optional property, array item depth 1/2, definition, nested property, typed additionalProperties value); documents = 21 JSON value shapes of every type (null, booleans, integral and non-integral numbers, plain and format strings, arrays, objects) at the position. distinct_nontrivial = distinct (unit, document) pairs with a definite reference verdict"}
 }
 
+func init() {
+	families["C15"] = &rt.Family{Prop: "C15", Module: "MC_C15", PackSize: 8,
+		Rule: "units = integer schemas whose lower and upper side are each absent | minimum v | numeric exclusive v | minimum v + boolean exclusive, v = landmark+{-1,0,1} around 0 and the 8/16-bit (quick) plus 32/64-bit (thorough) signed and unsigned limits, each generated with --min-sized-ints off and on; documents = every landmark+{-2..1} inside int64. Both programs must give the reference verdict on every document (hence equal accepted sets) and the Go type read by reflection from the compiled program must be a narrowest type holding the admitted interval. distinct_nontrivial = distinct (unit, document) pairs with a definite reference verdict",
+		ExtraCfg: func(tier string) string { return "  Tier = \"" + tier + "\"\n" }}
+}
+
 func hasMult(u *rt.Unit) bool {
 	b := fmt.Sprint(u.Raw["schema"], u.Raw["defs"])
 	return containsStr(b, "multipleOf")
